@@ -53,6 +53,7 @@ SMEMBERS = [(r'^clone\|.*lsearch0_t', 'nv_ls0_clone'), (r'^clone\|.*lsearchk_t',
             (r'^gcalls\|nano::function_t', '{self}->m_gcalls'), (r'^clear_statistics\|nano::function_t', 'function_clear_statistics'),
             (r'^(info|warn|error)\|nano::logger_t', '@drop'), (r'^done\|nano::solver_t', 'solver_done'),
             (r'^make_lsearch\|', 'solver_make_lsearch'), (r'^get\|nano::lsearch_t', 'lsearch_get'),
+            (r'^get\|(const )?std::unique_ptr<', '(*{self})'),
             (r'^get\|.*lsearch0_t', 'nv_ls0_get({self}, {&0}, {&1}, {2})'), (r'^get\|.*lsearchk_t', 'nv_lsk_get({self}, {&0}, {&1}, {2}, {&3})'),
             (r'^do_minimize\|', 'nv_do_minimize'), (r'^beta\|', 'nv_cgd_beta'), (r'^update\|nano::solver_quasi_t', 'nv_quasi_update')]
 # (c name, TU, ast-dump filter, class of the body, base classes that live in that TU)
@@ -164,6 +165,7 @@ IMEMBERS = [(r'^dataset\|nano::base_dataset_iterator_t', '(*{self}->m_dataset)')
             (r'^flatten\|nano::flatten_iterator_t \*\|#1', 'fiter_flatten_map({self}, {0})'),
             (r'^flatten\|nano::flatten_iterator_t \*\|#2', 'fiter_flatten({self}, {0}, {&1})'),
             (r'^samples\|nano::targets_iterator_t \*', '{self}->m_samples'),
+            (r'^size\|std::vector<nano::(tensor_t<|select_iterator_t::buffer_t)', '{self}->n'),
             (r'^scaling\|nano::targets_iterator_t \*', '{self}->m_scaling')]
 SELECT_KINDS = ['sclass', 'mclass', 'scalar', 'struct']
 
